@@ -26,6 +26,10 @@ import (
 type vMsg struct {
 	Exp []int `json:"exp"`
 	Buf []int `json:"buf"`
+	// operations other than a datagram (see vExtraOp): "peerget" | "peerinsert"
+	Op    string  `json:"op,omitempty"`
+	TID   int     `json:"tid,omitempty"`
+	Specs [][]int `json:"specs,omitempty"` // [element, length] of the template a peer answered with
 }
 
 type vJob struct {
@@ -71,6 +75,7 @@ type vRes struct {
 	ExpOK bool       `json:"exp_unchanged"`
 	MaxF  int        `json:"maxf"`
 	NRec  int        `json:"nrec"`
+	Specs [][]int    `json:"specs,omitempty"`
 }
 
 type vJobRes struct {
@@ -297,6 +302,10 @@ func TestVerifNF9Jobs(t *testing.T) {
 			}()
 			cache := GetCache(job.CacheFile)
 			for _, m := range job.Msgs {
+				if m.Op != "" {
+					jr.Res = append(jr.Res, vExtraOp(cache, m))
+					continue
+				}
 				jr.Res = append(jr.Res, vRunMsg(cache, m, job.WantJSON, job.Measure))
 			}
 			if job.DumpTo != "" {
@@ -355,9 +364,9 @@ func vDigest(rec []vField) string {
 func vObserve(exp []int, hist [][]int, buf []int) vObs {
 	cache := GetCache("")
 	for _, h := range hist {
-		vRunMsg(cache, vMsg{exp, h}, false, false)
+		vRunMsg(cache, vMsg{Exp: exp, Buf: h}, false, false)
 	}
-	r := vRunMsg(cache, vMsg{exp, buf}, false, false)
+	r := vRunMsg(cache, vMsg{Exp: exp, Buf: buf}, false, false)
 	o := vObs{St: r.St, N: len(r.Recs), RD: []string{}, Panic: r.Panic}
 	for _, rec := range r.Recs {
 		o.RD = append(o.RD, vDigest(rec))
